@@ -663,7 +663,7 @@ func runReuse(c *core.Ctx) []core.Obligation {
 					continue
 				}
 				f := staticCallee(call.Common())
-				if f == nil || f.Name() != "Parse" {
+				if f == nil || (f.Name() != "Parse" && f.Name() != "parse") {
 					continue
 				}
 				n++
